@@ -503,9 +503,9 @@ def write_replay(pid, kind, payload):
     return path
 
 
-def write_evidence(pid, tier, seed, coverage, wall, violations, assumptions):
+def write_evidence(pid, tier, seed, coverage, wall, violations, assumptions, scratch=False):
     evdir = os.path.join(ROOT, "evidence")
-    if os.path.realpath(REPO) != "/repo":
+    if scratch or os.path.realpath(REPO) != "/repo":
         # a run against a scratch copy of the repository (mutation self-tests): never the committed evidence
         evdir = os.path.join(WORK, "evidence-scratch")
     os.makedirs(evdir, exist_ok=True)
